@@ -5,7 +5,7 @@
    What is not proved: that the classification of a site is right (reviewed abstraction) and
    that template text has no other source of nondeterminism (observed by repeated runs). *)
 From Coq Require Import List Arith Bool Permutation Sorted String.
-From Verif Require Import Base.Bytes Gen.FileManager Gen.Determinism Gen.MapSites Gen.SiteClasses.
+From Verif Require Import Base.Bytes Gen.FileManager Gen.Determinism Gen.DeterminismInst Gen.MapSites Gen.SiteClasses.
 Import ListNotations.
 
 (* class Sorted: whatever order the map delivered, sorting by distinct keys gives one list *)
@@ -84,3 +84,12 @@ Theorem C07_emit_in_map_order_refuted :
   exists (l l' : list nat), Permutation l l' /\ (fun x => x) l <> (fun x => x) l'.
 Proof. exists [1; 2], [2; 1]. split; [constructor | discriminate]. Qed.
 Print Assumptions C07_emit_in_map_order_refuted.
+
+(* the hypotheses of the Sorted class are satisfiable by what the sites actually sort: byte-wise
+   lexicographic order on strings is total, transitive and antisymmetric, so whatever order the
+   runtime delivered the keys in, sorting them gives one list and hence one output *)
+Theorem C07_sorted_strings_deterministic :
+  forall (B : Type) (emit : list bytes -> B) (l l' : list bytes),
+    Permutation l l' -> emit (isort bytes lex_leb l) = emit (isort bytes lex_leb l').
+Proof. exact sorted_strings_deterministic. Qed.
+Print Assumptions C07_sorted_strings_deterministic.
